@@ -62,6 +62,7 @@ enum Local {
     SlotIter(usize, String), // consumer's slot iterator, with its position variable
     DestIter(String),        // builder's slot iterator, with its position variable
     Pos,                     // a position variable
+    Remaining(bool, String), // the live window of a by-value iterator (walked from the back?), its position variable
 }
 
 struct Ctx {
@@ -77,6 +78,7 @@ enum Src {
     OwnedSeq(usize),
     Dest(String),
     Enumerate,
+    IterBack(usize, String),
 }
 impl Src {
     fn coq(&self) -> String {
@@ -86,6 +88,7 @@ impl Src {
             Src::OwnedSeq(a) => format!("KOwnedSeq {}", a),
             Src::Dest(p) => format!("KDest \"{}\"", p),
             Src::Enumerate => "KEnumerate".into(),
+            Src::IterBack(a, p) => format!("KIterBack {} \"{}\"", a, p),
         }
     }
 }
@@ -124,6 +127,8 @@ impl Ctx {
                     let v = ident_of(&m.receiver).ok_or("iter() on a non-variable")?;
                     match self.locals.get(&v) {
                         Some(Local::NoDrop(a)) => Ok(vec![Src::NoDrop(*a)]),
+                        Some(Local::Remaining(false, p)) => Ok(vec![Src::Consumer(0, p.clone())]),
+                        Some(Local::Remaining(true, p)) => Ok(vec![Src::IterBack(0, p.clone())]),
                         _ => Err(format!("iter() on {} which is not a ManuallyDrop'd argument", v)),
                     }
                 }
@@ -195,6 +200,17 @@ impl Ctx {
                         }
                         self.pos(&p)?;
                         out.push(format!("CBump \"{}\"", p));
+                        Ok(())
+                    }
+                    // *p -= 1
+                    Expr::Binary(b) if matches!(b.op, BinOp::SubAssign(_)) => {
+                        let p = deref_ident(&b.left).ok_or("`-=` on something other than *position")?;
+                        match strip(&b.right) {
+                            Expr::Lit(l) if matches!(&l.lit, syn::Lit::Int(i) if i.base10_digits() == "1") => {}
+                            _ => return Err("position decreased by something other than 1".into()),
+                        }
+                        self.pos(&p)?;
+                        out.push(format!("CDec \"{}\"", p));
                         Ok(())
                     }
                     // *d = *s
@@ -395,7 +411,7 @@ fn block(cx: &mut Ctx, stmts: &[Stmt]) -> R<String> {
                     }
                 }
                 if let Expr::MethodCall(m) = e {
-                    if m.method == "fold" && m.args.len() == 2 && semi.is_none() {
+                    if (m.method == "fold" || m.method == "rfold") && m.args.len() == 2 && semi.is_none() {
                         if ident_of(&m.args[0]).as_deref() != Some("init") {
                             return Err("fold does not start from `init`".into());
                         }
@@ -552,6 +568,128 @@ fn elem_type_of(t: &syn::Type, f: &syn::ImplItemFn) -> Option<String> {
     None
 }
 
+/// GenericArrayIter::fold / rfold:
+///   let ret = unsafe { let GenericArrayIter { ref array, ref mut index, index_back } = self;
+///                      let remaining = array.get_unchecked(*index..index_back);
+///                      remaining.iter().fold(init, |acc, src| { .. }) };
+///   mem::forget(self); ret
+fn translate_iter_fold(f: &syn::ImplItemFn, back: bool) -> R<String> {
+    let stmts = &f.block.stmts;
+    if stmts.len() != 3 {
+        return Err("body is not `let ret = unsafe {..}; mem::forget(self); ret`".into());
+    }
+    let (ret_name, inner) = match &stmts[0] {
+        Stmt::Local(l) => {
+            let n = pat_ident(&l.pat).ok_or("first let pattern")?;
+            let init = &l.init.as_ref().ok_or("first let without initialiser")?.expr;
+            match strip(init) {
+                Expr::Unsafe(u) => (n, u.block.stmts.clone()),
+                _ => return Err("first let is not an unsafe block".into()),
+            }
+        }
+        _ => return Err("first statement".into()),
+    };
+    let forget_ok = match &stmts[1] {
+        Stmt::Expr(e, Some(_)) => call_path(e).map(|p| ends_with(&p, &["mem", "forget"])).unwrap_or(false) && call_args(e).len() == 1 && ident_of(call_args(e)[0]).as_deref() == Some("self"),
+        _ => false,
+    };
+    let ret_ok = matches!(&stmts[2], Stmt::Expr(e, None) if ident_of(e).as_deref() == Some(ret_name.as_str()));
+    if !forget_ok || !ret_ok {
+        return Err("the fold is not followed by mem::forget(self) and the result".into());
+    }
+    if inner.len() != 3 {
+        return Err("unsafe block is not destructuring; remaining; fold".into());
+    }
+    // the destructuring: which cursor is borrowed mutably
+    let (pos_field, other_field) = if back { ("index_back", "index") } else { ("index", "index_back") };
+    match &inner[0] {
+        Stmt::Local(l) => {
+            let ps = match &l.pat {
+                Pat::Struct(ps) => ps,
+                _ => return Err("destructuring pattern".into()),
+            };
+            let mut seen = 0;
+            for fp in &ps.fields {
+                let name = match &fp.member {
+                    syn::Member::Named(n) => n.to_string(),
+                    _ => return Err("destructuring member".into()),
+                };
+                let (by_ref, mutable) = match &*fp.pat {
+                    Pat::Ident(i) => (i.by_ref.is_some(), i.mutability.is_some()),
+                    _ => return Err("destructuring field pattern".into()),
+                };
+                if name == "array" {
+                    if !by_ref {
+                        return Err("`array` is moved out of the iterator".into());
+                    }
+                    seen += 1;
+                } else if name == pos_field {
+                    if !(by_ref && mutable) {
+                        return Err(format!("`{}` is not bound by `ref mut`: updates would go to a copy", pos_field));
+                    }
+                    seen += 1;
+                } else if name == other_field {
+                    if by_ref {
+                        return Err(format!("`{}` is bound by reference", other_field));
+                    }
+                    seen += 1;
+                } else {
+                    return Err(format!("unknown field {}", name));
+                }
+            }
+            let self_ok = l.init.as_ref().map(|i| ident_of(&i.expr).as_deref() == Some("self")).unwrap_or(false);
+            if seen != 3 || !self_ok {
+                return Err("destructuring does not bind array, index, index_back of self".into());
+            }
+        }
+        _ => return Err("destructuring statement".into()),
+    }
+    // let remaining = array.get_unchecked(LO..HI)
+    let rem_name = match &inner[1] {
+        Stmt::Local(l) => {
+            let n = pat_ident(&l.pat).ok_or("remaining pattern")?;
+            let init = &l.init.as_ref().ok_or("remaining initialiser")?.expr;
+            let ok = match strip(init) {
+                Expr::MethodCall(m) if m.method == "get_unchecked" && m.args.len() == 1 && ident_of(&m.receiver).as_deref() == Some("array") => match strip(&m.args[0]) {
+                    Expr::Range(r) => {
+                        let lo = r.start.as_ref().map(|x| if back { ident_of(x) } else { deref_ident(x) });
+                        let hi = r.end.as_ref().map(|x| if back { deref_ident(x) } else { ident_of(x) });
+                        matches!(r.limits, syn::RangeLimits::HalfOpen(_)) && lo.flatten().as_deref() == Some("index") && hi.flatten().as_deref() == Some("index_back")
+                    }
+                    _ => false,
+                },
+                _ => false,
+            };
+            if !ok {
+                return Err("the window is not array.get_unchecked(index..index_back)".into());
+            }
+            n
+        }
+        _ => return Err("window statement".into()),
+    };
+    let fname = f
+        .sig
+        .inputs
+        .iter()
+        .filter_map(|a| match a {
+            syn::FnArg::Typed(t) if matches!(&*t.ty, syn::Type::Path(p) if p.path.is_ident("F")) => pat_ident(&t.pat),
+            _ => None,
+        })
+        .next()
+        .ok_or("no caller-supplied function parameter")?;
+    let mut cx = Ctx { args: vec!["self".into()], fname, locals: BTreeMap::new() };
+    cx.locals.insert(pos_field.to_string(), Local::Pos);
+    cx.locals.insert(rem_name, Local::Remaining(back, pos_field.to_string()));
+    // the walk must be fold for the front cursor, rfold for the back cursor
+    if let Stmt::Expr(Expr::MethodCall(m), None) = &inner[2] {
+        let want = if back { "rfold" } else { "fold" };
+        if m.method != want {
+            return Err(format!("the window is walked with {} where {} moves this cursor", m.method, want));
+        }
+    }
+    Ok(format!("FPipe {}", block(&mut cx, &inner[2..])?))
+}
+
 fn find_fn<'a>(file: &'a syn::File, tr: &str, self_pred: impl Fn(&syn::Type) -> bool, name: &str) -> R<&'a syn::ImplItemFn> {
     let mut found = None;
     for it in &file.items {
@@ -607,6 +745,17 @@ pub fn gen_pipe(files: &BTreeMap<String, syn::File>, out: &mut String) {
             let f = files.get(file).ok_or("file missing")?;
             let fun = if boxed { find_fn(f, tr, is_box_ga, func)? } else { find_fn(f, tr, is_ga, func)? };
             translate(fun, "T")
+        })();
+        match res {
+            Ok(t) => writeln!(out, "Definition gen_{} : fnprog :=\n  {}.\n", name, t).unwrap(),
+            Err(e) => println!("ERROR GenPipe.v {}: {}", name, e),
+        }
+    }
+    let is_iter = |t: &syn::Type| matches!(t, syn::Type::Path(p) if p.path.segments.last().map(|s| s.ident == "GenericArrayIter").unwrap_or(false));
+    for (name, tr, func, back) in [("iter_fold", "Iterator", "fold", false), ("iter_rfold", "DoubleEndedIterator", "rfold", true)] {
+        let res: R<String> = (|| {
+            let f = files.get("iter.rs").ok_or("iter.rs missing")?;
+            translate_iter_fold(find_fn(f, tr, is_iter, func)?, back)
         })();
         match res {
             Ok(t) => writeln!(out, "Definition gen_{} : fnprog :=\n  {}.\n", name, t).unwrap(),
